@@ -260,7 +260,8 @@ def run_property(pid, tier, seed, replay=None):
                    "validate": [(i, None) for i in range(len(profiles))]}]
     if spec.get("hunt") and not replay:
         # mass screening against the naive oracle; whatever it forwards is judged by the specification
-        phases = list(phases) + [{"hunt": pid, "runs": [(profiles[0], "both")], "validate": [(0, None)]}]
+        phases = list(phases) + [{"hunt": pid, "runs": spec.get("hunt_runs", [(profiles[0], "both")]),
+                                  "validate": spec.get("hunt_validate", [(0, None)])}]
     hunt_stats = []
     if replay and '"call"' in open(replay).readline():
         mm = os.path.join(outdir, "mismatch.ndjson")
